@@ -6,13 +6,24 @@ from tla import tla
 
 STREAM = "inbound"
 
-# point keys: k -> dimensions
+# point keys: k -> dimensions.  A value has one Go type throughout (a = 1 is
+# always an int, a = 0 always a float64): zenodb keys are type-tagged, and the
+# canonical key strings used here could not tell int 1 from float 1 apart.
 KEYS = {
     1: {"a": 0, "b": "x"},
-    2: {"a": 1, "b": "x"},
+    2: {"a": {"$": "int", "v": 1}, "b": "x"},
     3: {"a": 0, "b": "y"},
-    4: {"a": 1, "b": "y"},
+    4: {"a": {"$": "int", "v": 1}, "b": "y"},
+    # mixed scalar types, extra, missing and explicitly nil dimensions (C01)
+    5: {"a": 0, "b": "y", "c": True},
+    6: {"a": 1.5, "b": "x"},
+    7: {"b": "y"},
+    8: {"a": None, "b": "x"},
+    9: {"a": {"$": "int", "v": 1}, "b": "x", "c": False, "d": {"$": "time", "v": 3}},
+    10: {"a": None},                 # byte-prefix of key 8's encoding
+    11: {"a": {"$": "int", "v": 1}, "b": "y", "c": True, "e": {"$": "u8", "v": 7}},
 }
+BASIC_KEYS = [1, 2, 3, 4]
 # WHERE ids: sql text (None = no WHERE) and the predicate evaluated here,
 # independently of zenodb
 WHERES = {
@@ -20,6 +31,8 @@ WHERES = {
     "by": ("b = 'y'", lambda d: d.get("b") == "y"),
     "a1": ("a = 1", lambda d: d.get("a") == 1),
     "bx": ("b = 'x'", lambda d: d.get("b") == "x"),
+    "a1by": ("a = 1 AND b = 'y'", lambda d: d.get("a") == 1 and d.get("b") == "y"),
+    "ct": ("c = TRUE", lambda d: d.get("c") is True),
 }
 # field ids: SQL and the value they aggregate
 FIELDS = {
@@ -31,9 +44,24 @@ FIELDS = {
 SRC = dict({"p": "_point"}, **{k: v[1] for k, v in FIELDS.items()})
 
 
+def plain(v):
+    """Python value of a typed dimension value."""
+    if isinstance(v, dict):
+        return "T%d" % v["v"] if v["$"] == "time" else v["v"]
+    return v
+
+
+def plain_dims(d):
+    return {k: plain(v) for k, v in d.items()}
+
+
 def fmt_val(v):
     if v is None:
         return "<nil>"
+    if isinstance(v, dict):
+        if v["$"] == "time":
+            return "T%d" % v["v"]
+        return fmt_val(v["v"])
     if isinstance(v, bool):
         return "true" if v else "false"
     if isinstance(v, float) and v == int(v):
@@ -47,18 +75,23 @@ def key_string(d):
 
 class Table:
     def __init__(self, name, fields=("f",), where="all", group=("a",), res=2, ret=1000,
-                 view_of=None, max_flush_ms=0):
+                 view_of=None, max_flush_ms=0, raw=None, view_where=None):
         self.name, self.fields, self.where = name, list(fields), where
         self.group, self.res, self.ret, self.view_of = list(group), res, ret, view_of
         self.max_flush_ms = max_flush_ms
+        self.raw = dict(raw or {})          # extra (non-decodable) fields: name -> SQL
+        self.view_where = view_where        # for a view: the WHERE written in its own SQL
 
     def flds(self):
         return ["p"] + self.fields
 
     def sql(self):
-        sel = ", ".join(FIELDS[f][0] for f in self.fields)
+        if self.view_of:
+            sel = ", ".join(self.fields)
+        else:
+            sel = ", ".join([FIELDS[f][0] for f in self.fields] + ["%s AS %s" % (e, n) for n, e in self.raw.items()])
         frm = self.view_of or STREAM
-        w = WHERES[self.where][0]
+        w = WHERES[self.view_where if self.view_of else self.where][0]
         s = "SELECT %s FROM %s" % (sel, frm)
         if w:
             s += " WHERE " + w
@@ -66,27 +99,37 @@ class Table:
         return s
 
     def proj(self, k):
-        d = KEYS[k]
+        d = plain_dims(KEYS[k])
         if not self.group:
             return key_string(d)
         return key_string({g: d[g] for g in self.group if d.get(g) is not None})
 
     def define(self):
         return {"name": self.name, "sql": self.sql(), "view": bool(self.view_of), "ret": self.ret,
-                "maxFlushMs": self.max_flush_ms, "abs": {"w": self.where, "fs": self.flds()}}
+                "maxFlushMs": self.max_flush_ms,
+                # after its first flush a row store re-arms its timer with 10x the
+                # flush duration clamped to [min, max]; keep timer flushes out of
+                # gated runs
+                "minFlushMs": 0 if self.max_flush_ms else 86400000,
+                "raw": sorted(self.raw),
+                "abs": {"w": self.where, "fs": self.flds()}}
 
 
 def sat_of(k):
-    return sorted(w for w, (_, pred) in WHERES.items() if pred(KEYS[k]))
+    return sorted(w for w, (_, pred) in WHERES.items() if pred(plain_dims(KEYS[k])))
 
 
-def point(pid, ts, k, vs=("w",), n=1):
-    return {"id": pid, "ts": ts, "k": k, "sat": sat_of(k), "vs": sorted(vs), "n": n}
+def point(pid, ts, k, vs=("w",), n=1, num=None):
+    """num: small integer values for the non-decodable value names (v, u)."""
+    p = {"id": pid, "ts": ts, "k": k, "sat": sat_of(k), "vs": sorted(set(vs) | set(num or {})), "n": n}
+    if num:
+        p["num"] = num
+    return p
 
 
 def tla_point(p):
     """The point as a TLA+ value (sat and vs are sets there)."""
-    q = dict(p)
+    q = {k: v for k, v in p.items() if k != "num"}
     q["sat"] = set(p["sat"])
     q["vs"] = set(p["vs"])
     return q
@@ -97,6 +140,9 @@ def render_insert(p, int_vals=False):
     w = float(4 ** p["id"])
     vals = {}
     for v in p["vs"]:
+        if v in p.get("num", {}):
+            vals[v] = {"$": "int", "v": p["num"][v]} if int_vals else float(p["num"][v])
+            continue
         if v == "w" and p["n"] > 1:
             vals[v] = {"$": "ints" if int_vals else "floats", "v": [w] * p["n"]}
         else:
